@@ -55,6 +55,11 @@ def gen_weights(rng, n, array_only=False):
         return {"form": "scalar", "value": rng.choice((1.0, 2.0, 0.5, 0.0, 3))}
     w = gen_fact(rng, n, None, allow_int=False, garbage=False)
     w["values"] = [None if v is None else abs(v) for v in w["values"]]
+    if w["values"] and rng.random() < 0.08:
+        # a stray negative weight (callers do have them; each aggregate has its own way of treating it)
+        k = rng.randrange(len(w["values"]))
+        if w["values"][k] is not None:
+            w["values"][k] = -abs(w["values"][k]) - 0.5
     return w
 
 
